@@ -117,6 +117,7 @@ class DilationWorld:
         self.errors = []
         self.logged = []
         self.now = 0.0
+        self.set_order = cfg.get("set_order", "ins")
         CTX.world = self
         self.net = Net()
         self.mbox = [[], []]
